@@ -389,8 +389,13 @@ package smtp
 //@   requires[C05:helo-name] c != nil && argsafe(c.localName)
 //@ func smtp.Client.helo
 //@   requires[C05:helo-name] c != nil && argsafe(c.localName)
+// (Hello itself refuses CR/LF; that the name has no blank is the caller's duty - mail.Client validates it in WithHELO.
+//  A name that Hello refuses must not stay in the client: a later command would run the implicit hello with it.)
+//@ pred noblanktab(s string) = forall i :: 0 <= i && i < len(s) ==> s[i] != 32 && s[i] != 9
 //@ func smtp.Client.Hello
-//@   requires[C05:helo-name] c != nil && argsafe(localName)
+//@   requires[C05:helo-name] c != nil && noblanktab(localName)
+//@   requires[C05:stored-name] c.didHello || nocrlf(c.localName)
+//@   ensures[C05:refused-name-not-kept] c.didHello || nocrlf(c.localName)
 //@ func smtp.Client.Mail
 //@   requires[C05:wf] namesafe(c) && argsafe(c.dsnmrtype)
 //@   ensures[C05:kept] (old(c.didHello) ==> c.didHello) && c.dsnmrtype == old(c.dsnmrtype) && c.dsnrntype == old(c.dsnrntype)
@@ -533,3 +538,15 @@ package smtp
 
 // C15 (continued): the nonce the exchange continues with starts, byte for byte, with the nonce this client sent
 //@ at smtp.scramAuth.handleServerFirstResponse base64.Encoding.DecodedLen#1 before assert[C15:nonce-is-ours-extended] len(a.nonce) >= len(old(a.nonce)) && len(old(a.nonce)) > 0 && (forall i :: 0 <= i && i < len(old(a.nonce)) ==> a.nonce[i] == old(a.nonce[i]))
+
+// C14 (continued): the salt Hi() is computed over is the decoded s= field of the server-first message - all of it,
+// nothing else: what is decoded is field 1 of the message without its two-byte tag, and what is handed to Hi() is the
+// decode buffer cut to exactly the number of bytes base64 produced
+//@ ghost field saltarr ref
+//@ ghost field saltoff int
+//@ ghost field saltn int
+//@ at smtp.scramAuth.handleServerFirstResponse base64.Encoding.Decode#1 before assert[C14:salt-field-decoded] len(parts) >= 3 && arrof(arg2) == arrof(parts[1]) && offof(arg2) == offof(parts[1]) + 2 && len(arg2) == len(parts[1]) - 2
+//@ at smtp.scramAuth.handleServerFirstResponse base64.Encoding.Decode#1 after ghost[C14:g] world.saltarr = arrof(arg1)
+//@ at smtp.scramAuth.handleServerFirstResponse base64.Encoding.Decode#1 after ghost[C14:g] world.saltoff = offof(arg1)
+//@ at smtp.scramAuth.handleServerFirstResponse base64.Encoding.Decode#1 after ghost[C14:g] world.saltn = r0
+//@ at smtp.scramAuth.handleServerFirstResponse pbkdf2.Key#1 before assert[C14:whole-decoded-salt-handed-to-hi] arrof(arg1) == world.saltarr && offof(arg1) == world.saltoff && len(arg1) == world.saltn
